@@ -33,7 +33,7 @@ func init() {
 		Assumptions: []string{"the canonical chain does not change between two RPCs of one Sync call (the statement quantifies over failures between steps; rpc.eth_reorg_between_calls is not injected)", "contracts do not emit the same registration key twice on one chain"},
 		Real:        []string{"shutterservice.RegistrySyncer", "shutterservice.MultiEventSyncer + EventTriggerRegisteredEventProcessor + TriggerProcessor", "gnosis.SequencerSyncer", "medley.GetSyncRanges", "ethclient.Client", "abigen bindings (shutterregistry, shuttereventtriggerregistryv1, sequencer)", "sqlc queries, pgx"},
 		Stub:        []string{"Ethereum node (simeth: block tree, eth_getLogs filter semantics, header RPCs)", "PostgreSQL (pgsim)"},
-		QuickRuns:   320, ThoroughRuns: 30000, QuickMinimize: 60, ThoroughMinimize: 300,
+		QuickRuns:   1500, ThoroughRuns: 30000, QuickMinimize: 60, ThoroughMinimize: 300,
 	})
 }
 
